@@ -8,18 +8,34 @@ import (
 	"strconv"
 	"strings"
 	"sync"
+	"sync/atomic"
 	"time"
 
 	"github.com/richardwilkes/toolbox/log/rotation"
 	"verifharness/hx"
 )
 
-// stress is the implementation-side oracle for the "concurrent writers never interleave bytes within one write"
-// clause: several goroutines write records with distinct, self-describing patterns through one Rotator; afterwards
-// every retained file must parse into whole records, and the retained stream (oldest backup → current file) must be
-// a suffix of a linearisation of the writes (per writer: consecutive sequence numbers ending at its last record).
+// stress is the tie between the code and the theorem C12.concurrent_writes_never_interleave (which is about a model in
+// which every method is bracketed by the mutex): several goroutines write records with distinct, self-describing
+// patterns through ONE Rotator while other goroutines call Close (the next Write re-opens) and Sync. The judge is
+// the conclusion of the theorem, read off the directory afterwards:
 //
-// line: stress <maxSize> <maxBackups> <writers> <perWriter> <seed> <mode>   (mode 1: fixed-length records)
+//   - every Write returned (len(b), nil);
+//   - every retained file is a sequence of WHOLE records (nothing torn);
+//   - the records read from the oldest backup to the current file form a sequence in which every goroutine's records
+//     are consecutive in its own order and end with its last record (a suffix of an interleaving of whole writes,
+//     each goroutine in program order); if the oldest slot was never reached, every record of every goroutine is there;
+//   - the directory is exactly what the SEQUENTIAL rotation rule (re-implemented below in three lines, independent of
+//     the library) produces when the retained records are written one at a time in that order: same number of files,
+//     same file boundaries — this contains the size bound (no file exceeds MaxSize unless it is a single record) and
+//     "size accounting is not confused by concurrency";
+//   - no backup beyond MaxBackups, no foreign directory entry.
+//
+// line: stress <maxSize> <maxBackups> <writers> <perWriter> <seed> <mode>
+//
+//	mode 0: records of varying length, Close and Sync goroutines running alongside
+//	mode 1: fixed-length records (12 bytes), MaxSize a multiple of it, many backups, writers only
+//	mode 2: like 1, plus the Close and Sync goroutines
 type stress struct{ timedOut bool }
 
 func (*stress) Gen(r *hx.Rng, n int, tier string, emit func(string)) {
@@ -32,11 +48,11 @@ func (*stress) Gen(r *hx.Rng, n int, tier string, emit func(string)) {
 			per = r.Range(100, 600)
 		}
 		mode := 0
-		if i%3 == 1 {
+		if i%3 != 0 {
 			// tight: all records have the same length (12 bytes) and MaxSize is a multiple of it, many files are kept:
 			// every file ends with writers racing for its last slot (check-then-act on the size shows as a file that is
 			// longer than MaxSize although no record is)
-			mode = 1
+			mode = i % 3
 			max = 12 * hx.Pick(r, []int{2, 5, 10, 50, 100})
 			backups = hx.Pick(r, []int{12, 25, 100})
 			writers = r.Range(4, 12)
@@ -93,6 +109,20 @@ func parse(seed int, data []byte) ([]rec, bool) {
 	return out, true
 }
 
+// sequential is the rotation rule of the property, applied to records written one at a time into an empty directory:
+// a record is appended to the current file unless that file is not empty and would grow beyond max, in which case a new
+// file is started. It returns the files, oldest first.
+func sequential(max int, recs [][]byte) [][]byte {
+	var files [][]byte
+	for _, b := range recs {
+		if len(files) == 0 || (len(files[len(files)-1]) > 0 && len(files[len(files)-1])+len(b) > max) {
+			files = append(files, nil)
+		}
+		files[len(files)-1] = append(files[len(files)-1], b...)
+	}
+	return files
+}
+
 func (st *stress) Run(line string) string {
 	f := strings.Fields(line)
 	if len(f) != 7 || f[0] != "stress" {
@@ -102,7 +132,8 @@ func (st *stress) Run(line string) string {
 		return "ok skipped (an earlier stress line timed out)"
 	}
 	max, backups, writers, per, seed := hx.Atoi(f[1]), hx.Atoi(f[2]), hx.Atoi(f[3]), hx.Atoi(f[4]), hx.Atoi(f[5])
-	if f[6] == "1" {
+	mode := hx.Atoi(f[6])
+	if mode != 0 {
 		seed = -1 - seed
 	}
 	root, err := os.MkdirTemp(scratchBase(), "c12s-")
@@ -118,6 +149,13 @@ func (st *stress) Run(line string) string {
 	var wg sync.WaitGroup
 	var mu sync.Mutex
 	var problems []string
+	problem := func(s string) {
+		mu.Lock()
+		if len(problems) < 3 {
+			problems = append(problems, s)
+		}
+		mu.Unlock()
+	}
 	start := make(chan struct{})
 	for g := 0; g < writers; g++ {
 		wg.Add(1)
@@ -128,38 +166,61 @@ func (st *stress) Run(line string) string {
 				b := record(seed, g, q)
 				n, werr := r.Write(b)
 				if n != len(b) || werr != nil {
-					mu.Lock()
-					if len(problems) < 3 {
-						problems = append(problems, fmt.Sprintf("write g=%d q=%d returned n=%d/%d err=%v", g, q, n, len(b), werr != nil))
-					}
-					mu.Unlock()
-				}
-				if q%17 == 3 && g == 0 && seed >= 0 { // Close from one writer in between: later writes re-open
-					_ = r.Close()
+					problem(fmt.Sprintf("write g=%d q=%d returned n=%d/%d err=%v", g, q, n, len(b), werr != nil))
 				}
 			}
 		}(g)
 	}
+	// Close and Sync from their own goroutines while the writers run (after a Close the next Write re-opens)
+	var stop atomic.Bool
+	var side sync.WaitGroup
+	closes, syncs := 0, 0
+	if mode != 1 {
+		side.Add(2)
+		go func() {
+			defer side.Done()
+			<-start
+			for !stop.Load() {
+				if cerr := r.Close(); cerr != nil {
+					problem("Close returned an error")
+				}
+				closes++
+				time.Sleep(time.Duration(20+closes%7*15) * time.Microsecond)
+			}
+		}()
+		go func() {
+			defer side.Done()
+			<-start
+			for !stop.Load() {
+				if serr := r.Sync(); serr != nil {
+					problem("Sync returned an error")
+				}
+				syncs++
+				time.Sleep(time.Duration(30+syncs%5*20) * time.Microsecond)
+			}
+		}()
+	}
 	done := make(chan struct{})
-	go func() { wg.Wait(); close(done) }()
+	go func() { wg.Wait(); stop.Store(true); side.Wait(); close(done) }()
 	close(start)
 	select {
 	case <-done:
 	case <-time.After(envMS("C12_STRESS_MS", 10000)):
 		st.timedOut = true
-		// make the spinning writers fail (see rot.write) so that they do not burn cores for the rest of the run
-		stop := time.Now().Add(5 * time.Second)
-		for time.Now().Before(stop) {
+		stop.Store(true)
+		// make the spinning writers fail (see guard.call) so that they do not burn cores for the rest of the run
+		end := time.Now().Add(5 * time.Second)
+		for time.Now().Before(end) {
 			_ = os.RemoveAll(root)
 			_ = os.WriteFile(root, []byte("x"), 0o600)
 			select {
 			case <-done:
-				stop = time.Now()
+				end = time.Now()
 			case <-time.After(5 * time.Millisecond):
 			}
 		}
 		_ = os.Remove(root)
-		return "FAIL writers did not finish within the deadline (a Write never returned)"
+		return "FAIL writers did not finish within the deadline (a call never returned)"
 	}
 	_ = r.Close()
 	if len(problems) > 0 {
@@ -187,7 +248,13 @@ func (st *stress) Run(line string) string {
 		idxs = append(idxs, idx)
 	}
 	sort.Sort(sort.Reverse(sort.IntSlice(idxs))) // oldest backup first
+	for i, idx := range idxs {
+		if idx != len(idxs)-1-i {
+			return fmt.Sprintf("FAIL the retained files are not path, path-1 … path-%d without gaps", len(idxs)-1)
+		}
+	}
 	var stream []rec
+	var raw [][]byte
 	for _, idx := range idxs {
 		recs, ok := parse(seed, files[idx])
 		if !ok {
@@ -197,6 +264,9 @@ func (st *stress) Run(line string) string {
 			return fmt.Sprintf("FAIL file %d has %d bytes > MaxSize %d and holds %d records", idx, len(files[idx]), max, len(recs))
 		}
 		stream = append(stream, recs...)
+		for _, x := range recs {
+			raw = append(raw, record(seed, x.g, x.q))
+		}
 	}
 	// per writer: consecutive sequence numbers, ending at the writer's last record
 	last := map[int]int{}
@@ -217,5 +287,19 @@ func (st *stress) Run(line string) string {
 		}
 	}
 	// (any interleaving of per-writer suffixes is a suffix of some linearisation that respects each writer's order)
+	// nothing can have been dropped unless the oldest slot was reached
+	if backups >= 1 && len(idxs) <= backups && len(stream) != writers*per {
+		return fmt.Sprintf("FAIL only %d of %d records retained although slot %d was never filled", len(stream), writers*per, backups)
+	}
+	// the directory is what the sequential rule makes of these records in this order
+	want := sequential(max, raw)
+	if len(want) != len(idxs) {
+		return fmt.Sprintf("FAIL %d files retained, the sequential rule puts these records into %d", len(idxs), len(want))
+	}
+	for i, idx := range idxs {
+		if string(want[i]) != string(files[idx]) {
+			return fmt.Sprintf("FAIL file %d holds %d bytes, the sequential rule gives it %d (file boundaries differ)", idx, len(files[idx]), len(want[i]))
+		}
+	}
 	return fmt.Sprintf("ok files=%d records=%d/%d", len(idxs), len(stream), writers*per)
 }
